@@ -20,7 +20,8 @@
      Ref*                 what a strict RFC 9112 recipient does with the same class (lib/vf/h1ref.py)
    Known deviation of the code, modelled as such: a body the addon puts on a response that cannot have one (HEAD,
    1xx, 204, 304) is written to the client (Http1Server.send does not look at the request method for ResponseData);
-   a 1xx head from the server is recorded and relayed as the (final) response of the flow.                    *)
+   a 1xx head from the server is recorded and relayed as the (final) response of the flow.  (The last-chunk after a
+   304 with Transfer-Encoding: chunked was repaired: DevLastChunkAfterBodilessStatus.)                    *)
 EXTENDS Mon_Http1Conn, TLC
 CONSTANTS ReqPlans,      \* set of <<request class, <<requestheaders edit, request edit>> >>
           RespPlans,     \* set of <<response class, <<responseheaders edit, response edit>> >>
@@ -32,6 +33,9 @@ CONSTANTS ReqPlans,      \* set of <<request class, <<requestheaders edit, reque
 VARIABLES nsent, cconn, h1s, pend, cur, sconn, nflow, nT, nF, nB, cms, nfinal, lag, up, down, brk, ended, mon, obs
 vars == <<nsent, cconn, h1s, pend, cur, sconn, nflow, nT, nF, nB, cms, nfinal, lag, up, down, brk, ended, mon, obs>>
 
+\* Http1Server.send(ResponseEndOfMessage) wrote 0 CRLF CRLF after 204 / 304 / 1xx responses carrying
+\* Transfer-Encoding: chunked (finding C01-F2); repaired in /repo by feb0b40bb -> FALSE describes the current code
+DevLastChunkAfterBodilessStatus == FALSE
 NoBrk == [on |-> FALSE, at |-> 0, kind |-> ""]    \* where the client-side byte stream stops being parsable (deviations below)
 NoCur == [on |-> FALSE, f |-> 0, tag |-> 0, m |-> "", v10 |-> FALSE, exp |-> FALSE, answered |-> FALSE, canon |-> FALSE]
 Init == /\ nsent = 0 /\ cconn = "open" /\ h1s = "read_headers" /\ pend = <<>> /\ cur = NoCur
@@ -240,7 +244,8 @@ ProcResp(w, p) ==
                                                   [k |-> "hook", name |-> "response", f |-> f, status |-> st,
                                                    fields |-> fid, body |-> bid, method |-> meth]>>],
                          st, fid, bid, fr,
-                         meth # "HEAD" /\ TEPresent(sc.te) /\ TEParse(sc.te) = "chunked",
+                         meth # "HEAD" /\ (DevLastChunkAfterBodilessStatus \/ ~BodilessSt(st))
+                           /\ TEPresent(sc.te) /\ TEParse(sc.te) = "chunked",
                          meth = "HEAD" \/ BodilessSt(sc.st), closeC)
              w2 == IF closeC THEN [w1 EXCEPT !.cconn = "closed", !.h1s = "done", !.pend = <<>>]
                    ELSE IF w1.pend # <<>>
